@@ -19,7 +19,9 @@ import (
 	"encoding/json"
 	"fmt"
 	"math"
+	"math/big"
 	"reflect"
+	"strconv"
 	"strings"
 	"unicode/utf8"
 
@@ -72,6 +74,10 @@ func convertEnumCaseStringKind(value interface{}, caseSensitive bool) *string {
 		return nil
 	}
 
+	if _, isNumber := value.(json.Number); isNumber {
+		return nil // a number, although its kind is string
+	}
+
 	val := reflect.ValueOf(value)
 	if val.Kind() != reflect.String {
 		return nil
@@ -110,6 +116,16 @@ func valuesEqual(a, b interface{}) bool {
 		return true
 	}
 
+	return valuesEqualVisiting(a, b, make(map[[2]uintptr]struct{}))
+}
+
+// valuesEqualVisiting is valuesEqual with the set of pairs of containers under comparison: like
+// reflect.DeepEqual, it takes a pair it meets again (values that contain themselves) for equal.
+func valuesEqualVisiting(a, b interface{}, visiting map[[2]uintptr]struct{}) bool {
+	if reflect.DeepEqual(a, b) {
+		return true
+	}
+
 	av, bv := reflect.ValueOf(numberOf(a)), reflect.ValueOf(numberOf(b))
 	if !av.IsValid() || !bv.IsValid() {
 		return false
@@ -125,8 +141,13 @@ func valuesEqual(a, b interface{}) bool {
 		if av.IsNil() != bv.IsNil() || av.Len() != bv.Len() {
 			return false
 		}
+		pair := [2]uintptr{av.Pointer(), bv.Pointer()}
+		if _, again := visiting[pair]; again {
+			return true
+		}
+		visiting[pair] = struct{}{}
 		for i := 0; i < av.Len(); i++ {
-			if !valuesEqual(av.Index(i).Interface(), bv.Index(i).Interface()) {
+			if !valuesEqualVisiting(av.Index(i).Interface(), bv.Index(i).Interface(), visiting) {
 				return false
 			}
 		}
@@ -136,9 +157,14 @@ func valuesEqual(a, b interface{}) bool {
 		if av.Type().Key() != bv.Type().Key() || av.IsNil() != bv.IsNil() || av.Len() != bv.Len() {
 			return false
 		}
+		pair := [2]uintptr{av.Pointer(), bv.Pointer()}
+		if _, again := visiting[pair]; again {
+			return true
+		}
+		visiting[pair] = struct{}{}
 		for _, key := range av.MapKeys() {
 			other := bv.MapIndex(key)
-			if !other.IsValid() || !valuesEqual(av.MapIndex(key).Interface(), other.Interface()) {
+			if !other.IsValid() || !valuesEqualVisiting(av.MapIndex(key).Interface(), other.Interface(), visiting) {
 				return false
 			}
 		}
@@ -149,7 +175,9 @@ func valuesEqual(a, b interface{}) bool {
 	return false
 }
 
-// numberOf replaces a json.Number by the number it spells: an int64 when it is one, a float64 otherwise.
+// numberOf replaces a json.Number by the number it spells, carried by the Go type that holds it exactly: an
+// int64, else a uint64, else a float64. A number that none of them holds exactly (or a text that is no number)
+// stays what it is, and is then only equal to the same spelling.
 func numberOf(v interface{}) interface{} {
 	n, ok := v.(json.Number)
 	if !ok {
@@ -158,7 +186,22 @@ func numberOf(v interface{}) interface{} {
 	if i, err := n.Int64(); err == nil {
 		return i
 	}
-	if f, err := n.Float64(); err == nil {
+	if u, err := strconv.ParseUint(string(n), 10, 64); err == nil {
+		return u
+	}
+	r, ok := new(big.Rat).SetString(string(n))
+	if !ok {
+		return v
+	}
+	if r.IsInt() {
+		if r.Num().IsInt64() {
+			return r.Num().Int64()
+		}
+		if r.Num().IsUint64() {
+			return r.Num().Uint64()
+		}
+	}
+	if f, exact := r.Float64(); exact {
 		return f
 	}
 
